@@ -1,5 +1,6 @@
 import NgoVerif.Model.Cleanup
 import NgoVerif.Meta.M6
+import NgoVerif.Proofs.C08sem
 /-!
 # C08 — cleanup deletes only literals and rules that cannot matter
 
@@ -129,5 +130,16 @@ example :
     (match superseededLit [] (.pos, .sym (.fn "p" [.var "X"] false)) (.pos, .sym (.fn "p" [.var "_"] false)) with
       | .ok b => b == true | _ => false) = true := by
   decide
+
+
+/-- **End-to-end for the model function `remove_boolean`** (the function the correspondence ties to `cleanup.py`):
+for every environment, here-and-there pair and choice of semantic parameters, the cleaned body has the same
+denotation as the original one (conditional literals and aggregate element conditions included), and a body is
+discarded — the statement deleted — only if it can never hold. -/
+theorem C08_remove_boolean_sound (P : Sem.Params) (G : List String) (e : Sem.Env) (H T : Sem.Interp) (b : List BLit) :
+    match removeBooleanBody b with
+    | some b' => (Sem.bodySat P G e H T b' ↔ Sem.bodySat P G e H T b)
+    | none => ¬ Sem.bodySat P G e H T b :=
+  Proofs.C08sem.removeBooleanBody_sound P G e H T b
 
 end NgoVerif
